@@ -17,7 +17,7 @@ for id in $IDS; do
   [ -f /verif/seeded/$id/patch.rebased.diff ] && PATCH=/verif/seeded/$id/patch.rebased.diff
   if ! git -C $WT/wt apply $PATCH 2>/dev/null && ! git -C $WT/wt apply --3way $PATCH >/dev/null 2>&1; then
     echo "$id does-not-apply-to-HEAD (see meta.json: base_commit / superseded)"; git -C /repo worktree remove --force $WT/wt; rm -rf $WT; continue; fi
-  out=$(cd $SNAP && VERIF_REPO=$WT/wt VERIF_TMP=/tmp/mine VERIF_EVIDENCE_DIR=/tmp/mine/evidence VERIF_REPLAY_DIR=/tmp/mine/replays VERIF_BUDGET=$B bin/check $prop quick 2>&1); rc=$?
+  out=$(cd $SNAP && VERIF_REPO=$WT/wt VERIF_TMP=/tmp/mine VERIF_EVIDENCE_DIR=/tmp/mine/evidence VERIF_REPLAY_DIR=/tmp/mine/replays.$$ VERIF_BUDGET=$B bin/check $prop quick 2>&1); rc=$?
   keys=$(echo "$out" | grep -oE "^REPLAY: violation class=[a-z_]+( key=[^ ]+| form=[a-z_]+)?" | sed 's/REPLAY: violation //' | sort | uniq -c | sort -rn | head -3 | tr '\n' ';')
   echo "$id prop=$prop exit=$rc $keys"
   git -C /repo worktree remove --force $WT/wt; rm -rf $WT
